@@ -229,6 +229,11 @@ def check_robust(R, variant, yy, nodata, llas, p, ykind):
             if any(b < (1e-9 * scale) ** 2 for b in tapped_best) or any(float(np.sum(w * (ycl - S.ws2d_solver(ycl, 10.0 ** float(ll), w)) ** 2)) < noise for ll in llas):
                 # GCV scores at rounding-noise level (exactly reproducible data): the argmin is summation-order noise
                 R.count("cvi_criterion_degenerate")
+            elif tap.ret and tap.ret[0].get("robust_weights") is not None and li == lopt and not S.in_int16_claim(
+                    S.ws2d_solver(ycl, li, np.asarray(tap.ret[0]["robust_weights"], dtype=float)) if variant == "ws2dwcv"
+                    else W.asym(ycl, li, np.asarray(tap.ret[0]["robust_weights"], dtype=float), p, S.ws2d_solver)["z"]):
+                # the curve the kernel rounded (robust weights, not w) leaves the int16 range: outside the claim
+                R.count("excluded_int16")
             elif S.in_int16_claim(zc):
                 R.violation("C05:compiled-vs-interpreted", f"{variant}(robust): compiled (lopt {lopt:.6g}) and interpreted (lopt {float(lopt_i[0]):.6g}) runs of the same source differ", case)
                 return
